@@ -235,6 +235,9 @@ def rejected_calls():
     inner = IR.prog("inner", [IR.func("A", ["x"], ["a"])], max_iter=1000)
     nested = IR.prog("top", [IR.graph_node(inner, name="inner", inputs=["x"], outputs=["a"]), IR.func("B", ["a", "k"], ["b"], defaults=["k"])])
     aflat = IR.prog("top", [IR.func("A", ["x"], ["a"], is_async=True), IR.func("B", ["a", "k"], ["b"], defaults=["k"])])
+    hitl = IR.prog("top", [IR.func("A", ["x"], ["a"]), IR.interrupt("I", ["a"], ["d"], pause_at=[1]), IR.func("B", ["d", "k"], ["b"], defaults=["k"])])
+    # (an interrupt inside a NESTED graph is not part of this family: `has_interrupts` looks at the graph's own nodes, so
+    # such a call is not rejected -- under SyncRunner it starts and fails at the nested graph node; see DESIGN.md 7)
     X = {"x": "in.x"}
     calls = [
         ("run", "missing-input", {}, {}),
@@ -249,11 +252,13 @@ def rejected_calls():
         ("map", "map-bad-mode", {"x": ["1", "2"]}, {"map_over": "x", "map_mode": "zap"}),
         ("map", "map-bad-error_handling", {"x": ["1", "2"]}, {"map_over": "x", "error_handling": "stop"}),
         ("map", "map-sync-runner-async-node", {"x": ["1", "2"]}, {"map_over": "x"}),
+        ("run", "sync-runner-interrupt", X, {}),                       # only SyncRunner: interrupts need the async runner
+        ("map", "map-with-interrupt", {"x": ["1", "2"]}, {"map_over": "x"}),   # interrupts are incompatible with map
         # NOT in the list: what only an ITEM's run rejects (a missing input, an invalid on_missing): by design (and by the
         # suite's test_map_continue_handles_item_exceptions) that is a failure of the item inside a map that did start
     ]
     out = []
-    for pname, prog in (("flat", flat), ("nested", nested), ("async-node", aflat)):
+    for pname, prog in (("flat", flat), ("nested", nested), ("async-node", aflat), ("interrupt", hitl)):
         for mode in ("sync", "async"):
             for asyncrec in (False, True):
                 for what, name, vals, kw in calls:
@@ -261,6 +266,10 @@ def rejected_calls():
                         continue
                     if mode == "sync" and pname == "async-node" and not name.endswith("sync-runner-async-node"):
                         continue            # one reason per call
+                    if pname.endswith("interrupt") != (name in ("sync-runner-interrupt", "map-with-interrupt")):
+                        continue
+                    if name == "sync-runner-interrupt" and mode != "sync":
+                        continue
                     rt = build.Runtime(prog)
                     with warnings.catch_warnings():
                         warnings.simplefilter("ignore")
